@@ -1,5 +1,5 @@
 SPECIFICATION Spec
-CONSTANT TypedDispatch = FALSE
+CONSTANTS TypedDispatch = FALSE NavWritesBack = {"userString"}
 INVARIANTS NoPanic ReadBack UnknownRejected WrongKindRejected KindsStable NothingCreated
 PROPERTIES ErrChangesNothing OthersUntouched PersistsAcrossSetMathML
 CHECK_DEADLOCK FALSE
